@@ -532,6 +532,12 @@ class EligibilityMonitor(Monitor):
             return 'unknown'
         if prog_name in (spec.get('disabled') or []):
             return 'disabled'
+        changed = getattr(self.run, 'runtime_disabled', {}).get((nick, prog_name))
+        if changed:
+            # disabled / enabled at run time: the requester needs the time to learn it
+            if w.now - changed[0] < 3 * TICK:
+                return 'changing'
+            return 'disabled' if changed[1] else 'ok'
         return 'ok'
 
     def sender_view(self, inst):
@@ -586,7 +592,7 @@ class EligibilityMonitor(Monitor):
             self.violate('C04/target-not-running' + mech, f'start request {where}: the requester sees the target '
                          f'{states.get(target)}', case=run.describe())
         known = self.knows(target, namespec)
-        if known != 'ok':
+        if known not in ('ok', 'changing'):
             self.violate(f'C04/target-{known}', f'start request {where}: the program is {known} on the target',
                          case=run.describe())
         if target not in self.allowed(namespec):
